@@ -8,7 +8,7 @@ from .c03 import _square
 PROPERTY = "C04"
 TRACE_MODULE = "FontTrace"
 TRACE_CFG = "FontTrace.cfg"
-RULE = ("random UFOs: empty glyphs, glyphs with only components (TrueType), zero / equal / descending / random advance "
+RULE = ("(every fourth case enters through compileVariableTTF or the first master of compileInterpolatable*FromDS, with the UFO as default master of a two-master family) random UFOs: empty glyphs, glyphs with only components (TrueType), zero / equal / descending / random advance "
         "sequences, box-less glyphs first or last, vertical metrics on or off with per-glyph vertical origins, BMP and "
         "supplementary code points x {TTF, OTF}; the reloaded hhea/hmtx/vhea/vmtx/head/maxp/OS/2/post/VORG are projected and "
         "every derived field is recomputed by the TLA+ operators; the font is saved, reloaded and re-saved; non-trivial = "
@@ -85,6 +85,10 @@ def classify(rec, pfail, mfail, extra, rep):
 
 
 def execute(case):
+    # every fourth case enters through a designspace function instead of compileTTF / compileOTF
+    k = sum(ord(ch) for ch in case["cid"])
+    if "via" not in case and k % 4 == 0 and not case["cid"].count("empty"):
+        case = dict(case, via="vf" if (case["flavor"] == "tt" and k % 8 == 0) else "interp")
     return [font_exec.font_record(case)]
 
 
